@@ -7,6 +7,11 @@ Contracts on the real bodies of two legality decisions:
       BOTH loops) do not reference the other loop's variable - and (no code
       behind it: recorded known finding) without a dependence whose
       direction vector is (<,>)
+  ChunkLoopTrans (executed closed code, PF): for 48 combinations of bound
+      shapes, literal steps 1..3 and chunk sizes 1..32 the loop nest it
+      WRITES is translated to z3 terms and proved, for all integer bounds, to
+      enumerate exactly the original iterations in the original order
+      (sound / complete / ordered), or validate refuses
   ReplaceInductionVariablesTrans._is_induction_variable
       True only if the right-hand side has no code block / impure call and
       only reads variables that are read-only in the loop body, the target
@@ -320,6 +325,27 @@ def extra(uni, tier, seed):
             replay={"confirmed": True, "input": {"source": src},
                     "observed": "the transformed routine computes "
                     "different values (" + detail + ")"}))
+    # PF: obligations over all integers on the nest ChunkLoopTrans writes
+    res = R.chunk_obligations()
+    n_pf = 0
+    for name, verdict, detail in res:
+        if verdict == "unsat":
+            n_pf += 1
+        elif verdict != "refused":
+            out.append(Extra(
+                "table#" + name, False, detail[:400],
+                kind="z3 obligation over all integer bounds on the loop "
+                     "nest ChunkLoopTrans writes",
+                undecided=(verdict == "unknown"),
+                replay={"confirmed": verdict == "sat", "obligation": name,
+                        "detail": detail}))
+    out.append(Extra(
+        "table#ChunkLoopTrans-iteration-sequence", n_pf >= 100,
+        f"{n_pf} obligations discharged "
+        f"({sum(1 for r in res if r[1] == 'refused')} shape combinations "
+        "refused by validate)",
+        kind="z3 obligations over all integers: the chunked nest is sound, "
+             "complete and ordered", count=n_pf, undecided=n_pf < 100))
     out.append(Extra("bounded#apply-serial-equivalence", True,
                      f"{n_ok} (transformation, trip count) cases equal",
                      kind="bounded run-time contract: serial evaluation, "
